@@ -75,6 +75,8 @@ pub enum DKind {
     Hlit288,
     Hdist31,
     Hdist32,
+    /// HLIT and HDIST fields both at their maximum (288 / 32 codes announced)
+    HlitHdistMax,
     OversubLit,
     OversubDist,
     OversubClc,
@@ -98,8 +100,8 @@ pub enum DKind {
     BadAdler,
 }
 
-pub const ALL_DKINDS: [DKind; 27] = [
-    DKind::Btype3, DKind::BadNlen, DKind::Hlit287, DKind::Hlit288, DKind::Hdist31, DKind::Hdist32, DKind::OversubLit, DKind::OversubDist, DKind::OversubClc,
+pub const ALL_DKINDS: [DKind; 28] = [
+    DKind::HlitHdistMax, DKind::Btype3, DKind::BadNlen, DKind::Hlit287, DKind::Hlit288, DKind::Hdist31, DKind::Hdist32, DKind::OversubLit, DKind::OversubDist, DKind::OversubClc,
     DKind::IncompleteLit, DKind::IncompleteDist, DKind::IncompleteClc, DKind::Rep16First, DKind::RepOverrun, DKind::UnassignedLit, DKind::UnassignedDist,
     DKind::NoDistCodeMatch, DKind::Lit286, DKind::Lit287, DKind::Dist30, DKind::Dist31, DKind::DistTooFar, DKind::ZCm, DKind::ZCinfo, DKind::ZFdict, DKind::ZFcheck, DKind::BadAdler,
 ];
@@ -396,7 +398,7 @@ pub fn build(r: &StreamRecipe) -> Built {
         dblock = match d.kind {
             Btype3 => target(&|_| true, d.block),
             BadNlen => target(&|b| matches!(b, Block::Stored { .. }), d.block),
-            Hlit287 | Hlit288 | Hdist31 | Hdist32 | OversubLit | OversubDist | OversubClc | IncompleteLit | IncompleteDist | IncompleteClc | Rep16First | RepOverrun | UnassignedLit | UnassignedDist | NoDistCodeMatch => {
+            Hlit287 | Hlit288 | Hdist31 | Hdist32 | HlitHdistMax | OversubLit | OversubDist | OversubClc | IncompleteLit | IncompleteDist | IncompleteClc | Rep16First | RepOverrun | UnassignedLit | UnassignedDist | NoDistCodeMatch => {
                 target(&|b| matches!(b, Block::Dynamic { .. }), d.block)
             }
             Lit286 | Lit287 | Dist30 | Dist31 => target(&|b| matches!(b, Block::Fixed { .. }), d.block),
@@ -731,6 +733,11 @@ pub fn build(r: &StreamRecipe) -> Built {
                         f_hdist = 31;
                         applied = dk;
                     }
+                    Some(DKind::HlitHdistMax) => {
+                        f_hlit = 31;
+                        f_hdist = 31;
+                        applied = dk;
+                    }
                     _ => {}
                 }
                 if applied.is_some() && applied == dk {
@@ -930,7 +937,7 @@ pub fn expected_rules(k: DKind) -> &'static [super::inflate::Rule] {
     match k {
         DKind::Btype3 => &[R::BlockType3],
         DKind::BadNlen => &[R::StoredLen],
-        DKind::Hlit287 | DKind::Hlit288 => &[R::Hlit],
+        DKind::Hlit287 | DKind::Hlit288 | DKind::HlitHdistMax => &[R::Hlit],
         DKind::Hdist31 | DKind::Hdist32 => &[R::Hdist, R::Hlit],
         DKind::OversubLit => &[R::LitOversubscribed],
         DKind::OversubDist => &[R::DistOversubscribed],
